@@ -22,14 +22,20 @@ Inductive eff :=
 | CustomPickle       (* __getstate__/__setstate__/__reduce__/__deepcopy__ defined *)
 | ProcEntropy        (* id(), hash(), uuid, os.urandom, getpid *)
 | DynamicCode        (* exec/eval/__import__/importlib *)
-| DynamicAttr.       (* getattr/setattr with a computed name *)
+| DynamicAttr        (* getattr/setattr with a computed name *)
+| UnseededGenerator  (* RandomState(x)/default_rng(x) with x not seed-derived (or possibly None, untested); a
+                        generator-named attribute bound to a non-generator value *)
+| UnknownRngReceiver (* a draw method (.rand/.randint/.choice/...) on a receiver that is not generator-valued *)
+| RandomStateOmitted. (* a call (or bound-method mention) that leaves the random_state parameter of a callee with
+                        an ambient fallback to its default *)
 
 Definition eff_eqb (a b : eff) : bool :=
   match a, b with
   | GlobalNumpyRNG, GlobalNumpyRNG | PyRandom, PyRandom | HashOrderIter, HashOrderIter
   | WallClock, WallClock | ModuleGlobalWrite, ModuleGlobalWrite | ClassAttrWrite, ClassAttrWrite
   | CustomPickle, CustomPickle | ProcEntropy, ProcEntropy | DynamicCode, DynamicCode
-  | DynamicAttr, DynamicAttr => true
+  | DynamicAttr, DynamicAttr | UnseededGenerator, UnseededGenerator
+  | UnknownRngReceiver, UnknownRngReceiver | RandomStateOmitted, RandomStateOmitted => true
   | _, _ => false
   end.
 
@@ -114,7 +120,25 @@ Definition allow_used (g : list edge) (effs : list effsite) (off roots : list po
 
 Definition ambient (e : eff) : bool :=
   match e with GlobalNumpyRNG | PyRandom | WallClock | ProcEntropy | DynamicCode => true | _ => false end.
+(* seed flow: generators are constructed from seed-derived values, draws go through generator-valued receivers,
+   and no call leaves a random_state parameter with an ambient fallback to its default *)
+Definition seed_flow (e : eff) : bool :=
+  match e with UnseededGenerator | UnknownRngReceiver | RandomStateOmitted => true | _ => false end.
 Definition hash_order (e : eff) : bool := match e with HashOrderIter => true | _ => false end.
 Definition pickle_hook (e : eff) : bool := match e with CustomPickle => true | _ => false end.
 Definition shared_write (e : eff) : bool :=
   match e with ModuleGlobalWrite | ClassAttrWrite => true | _ => false end.
+
+(* ---- what the translator owes: justified execution traces --------------------------------------------- *)
+(* A trace lists, most recent first, the nodes a concrete execution touches (functions entered, classes
+   instantiated or used as values, module variables read, method names dispatched on).  It is JUSTIFIED by the
+   graph when every node is TOP, an entry point, or the target of a live edge whose source and condition node
+   occur EARLIER in the trace.  The translator is correct for a configuration exactly when every concrete
+   execution of that configuration has a justified trace; the theorems then apply to everything that ran. *)
+Inductive Justified (g : list edge) (off roots : list positive) : list positive -> Prop :=
+| J_nil : Justified g off roots []
+| J_cons : forall x tr, Justified g off roots tr ->
+    (x = TOP \/ In x roots \/
+     exists a c ls, In (a, x, c, ls) g /\ (forall l, In l ls -> ~ In l off) /\
+                    (a = TOP \/ In a tr) /\ (c = TOP \/ In c tr)) ->
+    Justified g off roots (x :: tr).
